@@ -50,8 +50,8 @@ Proof.
     pose proof (updateExpire_range (sexpire e) expire now (proj1 (E e (get_ent_in s id e G))) He Hf) as U.
     destruct (updateExpire (sexpire e) expire now) as [ex rs]. cbn [fst] in *. split; [rewrite scap_si; exact C|].
     intros e' H. rewrite ents_si in H. apply in_upd_ent in H. destruct H as (e0 & H0 & ->).
-    rewrite scap_si. change (scap (upd_ent s id (fun e1 => e_weight (e_val (e_expire e1 ex) v) cost))) with (scap s).
-    destruct (sid e0 =? id); [cbn [sexpire sweight e_weight e_val e_expire]; lia|apply E, H0].
+    rewrite scap_si. change (scap (upd_ent s id (fun e1 => e_dirty (e_weight (e_val (e_expire e1 ex) v) cost) (f_dirty e1 || negb nvm)))) with (scap s).
+    destruct (sid e0 =? id); [cbn [sexpire sweight e_weight e_val e_expire e_dirty]; lia|apply E, H0].
   - destruct dk; cbn [negb fst]; [|split; assumption]. split; [rewrite scap_si; exact C|].
     intros e' H. rewrite ents_si in H. cbn [ents set_nextid set_smap set_ents] in H.
     rewrite scap_si. cbn [scap set_nextid set_smap set_ents]. destruct H as [<-|H]; [cbn [sexpire sweight]; lia|apply E, H].
@@ -87,7 +87,7 @@ Proof.
     pose proof (updateExpire_range (sexpire e) (setExpire now ttl) now (proj1 (E e (get_ent_in s id e G))) Er Ef) as U.
     destruct (updateExpire (sexpire e) (setExpire now ttl) now) as [ex rs]. cbn [fst] in U.
     intro H. inversion H. clear H.
-    set (f := fun e0 => e_weight (e_val (e_expire e0 ex) v) (if cost =? 0 then 1 else cost)).
+    set (f := fun e0 => e_dirty (e_weight (e_val (e_expire e0 ex) v) (if cost =? 0 then 1 else cost)) (f_dirty e0 || true)).
     exists (f e). unfold lookup_live. rewrite sclosed_si. change (sclosed (upd_ent s id f)) with (sclosed s).
     rewrite Ecl. rewrite smap_si. change (smap (upd_ent s id f)) with (smap s). rewrite Em.
     rewrite get_ent_si.
